@@ -4,7 +4,8 @@
    Gen/ContentTypes.v regenerated from the Go source). *)
 From Coq Require Import ZArith Permutation.
 From ReqV Require Import Lib.Bytes Model.Form Model.Multipart Model.ReqBody Model.Progress
-  Proofs.FormProofs Proofs.MultipartProofs Proofs.ReqBodyProofs Proofs.ProgressProofs.
+  Proofs.FormProofs Proofs.MultipartProofs Proofs.ReqBodyProofs Proofs.ProgressProofs
+  Model.Session Proofs.SessionProofs.
 
 (* ------------------------------------------------------------------ url-encoded forms *)
 
@@ -284,6 +285,55 @@ Theorem C17_download_any_clock : forall interval t0 evs,
   subseq (run_reader interval (r0 t0) evs) (running 0 (map (fun e => fst (fst e)) evs)) = true.
 Proof. exact download_any_clock. Qed.
 Print Assumptions C17_download_any_clock.
+
+(* ------------------------------------------------------------------ several requests, several executions *)
+
+(* what an execution merged from the client into the request is taken back exactly by the next one:
+   the request's own data are what they were (unmergeClientSettings after parseRequestBody's merge) *)
+Theorem C17_unmerge_merge : forall rf cf,
+  NoDup (map fst rf) -> NoDup (map fst cf) ->
+  forall k, lookup k (unmerge (merge_records rf cf) (merge_form rf cf)) = lookup k rf.
+Proof. exact unmerge_merge. Qed.
+Print Assumptions C17_unmerge_merge.
+
+(* sending the same request again sets up the request's own data plus the client's, like the first
+   time: nothing is lost, nothing doubled - and the server sees the same form data both times *)
+Theorem C17_resend_same_data : forall c r,
+  NoDup (map fst (sr_form r)) -> sr_merged r = [] -> NoDup (map fst c) ->
+  forall k, lookup k (sr_form (prepare c (prepare c r))) = lookup k (sr_form r) ++ lookup k c.
+Proof. exact resend_same_data. Qed.
+Print Assumptions C17_resend_same_data.
+
+Theorem C17_resend_same_body_data : forall c r b1 b2,
+  NoDup (map fst (sr_form r)) -> sr_merged r = [] -> NoDup (map fst c) ->
+  form_plan_of (sr_form (prepare c r)) [] (sr_ordered r) = FBody b1 ->
+  form_plan_of (sr_form (prepare c (prepare c r))) [] (sr_ordered r) = FBody b2 ->
+  forall k, values_of k (parse_form b2) = values_of k (parse_form b1).
+Proof. exact resend_same_body_data. Qed.
+Print Assumptions C17_resend_same_body_data.
+
+(* whatever is done to request i (setters, executions, retries) leaves every other request and the
+   client's form data as they were *)
+Theorem C17_step_frame : forall s o i j,
+  op_target o = Some i -> i <> j ->
+  nth j (ss_reqs (fst (sstep s o))) sreq0 = nth j (ss_reqs s) sreq0 /\
+  ss_client (fst (sstep s o)) = ss_client s.
+Proof. exact step_frame. Qed.
+Print Assumptions C17_step_frame.
+
+Theorem C17_client_untouched_by_requests : forall s o,
+  (forall f, o <> SClientAdd f) -> ss_client (fst (sstep s o)) = ss_client s.
+Proof. exact client_untouched_by_requests. Qed.
+Print Assumptions C17_client_untouched_by_requests.
+
+(* every attempt marshals the payload as it is at that moment *)
+Theorem C17_attempts_marshal_fresh : forall s i v r,
+  r = prepare (ss_client s) (nth i (ss_reqs s) sreq0) ->
+  form_plan_of (sr_form r) [] (sr_ordered r) = FNone -> sr_body r = true ->
+  snd (sstep s (SSendRetry i v)) = [OutMarshal i (ss_cell s); OutMarshal i v] /\
+  snd (sstep s (SSend i)) = [OutMarshal i (ss_cell s)].
+Proof. exact attempts_marshal_fresh. Qed.
+Print Assumptions C17_attempts_marshal_fresh.
 
 (* ------------------------------------------------------------------ the code before the repairs *)
 
